@@ -133,3 +133,148 @@ def line_pattern_lemmas(pattern_text, timeout_ms=60000):
                 "status": "discharged" if r3 == z3.unsat else ("refuted" if r3 == z3.sat else "unknown"), "backend": "z3-seq",
                 "secs": round(time.time() - t0, 3), "props": ["C18"]})
     return out
+
+
+# ----------------------------------------------------------------------------------------------
+# structural contract of pattern.match(source, pos)  (DESIGN.md 2.6)
+class Derivation(object):
+    def __init__(self, ctx):
+        self.ctx = ctx
+        self.cons = []
+        self.groups = {}       # index -> (present Bool term, value String term)
+        self.end_anchor = []   # conditions under which the match must end at the end of the source
+
+    def fresh_str(self, tag):
+        return z3.String(self.ctx.fresh_name("rx." + tag))
+
+    def fresh_bool(self, tag):
+        return z3.Bool(self.ctx.fresh_name("rx." + tag))
+
+
+def _has_group(tree):
+    for op, av in tree:
+        if op == sc.SUBPATTERN:
+            return True
+        if op in (sc.MAX_REPEAT, sc.MIN_REPEAT) and _has_group(av[2]):
+            return True
+        if op == sc.BRANCH and any(_has_group(b) for b in av[1]):
+            return True
+    return False
+
+
+def _has_anchor(tree):
+    for op, av in tree:
+        if op == sc.AT:
+            return True
+        if op == sc.SUBPATTERN and _has_anchor(av[3]):
+            return True
+        if op in (sc.MAX_REPEAT, sc.MIN_REPEAT) and _has_anchor(av[2]):
+            return True
+        if op == sc.BRANCH and any(_has_anchor(b) for b in av[1]):
+            return True
+    return False
+
+
+def derive(tree, d, guard):
+    """Value (String term) of one derivation of `tree`; constraints are added to d.cons under `guard`."""
+    items = list(tree)
+    if not _has_group(items) and not _has_anchor(items):
+        # no captures inside: the value is just some member of the sub-language
+        s = d.fresh_str("s")
+        d.cons.append(z3.Implies(guard, z3.InRe(s, translate(items))))
+        return s
+    vals = []
+    for op, av in items:
+        one = [(op, av)]
+        if op == sc.SUBPATTERN:
+            v = derive(av[3], d, guard)
+            if av[0] is not None:
+                d.groups[av[0]] = (guard, v)
+            vals.append(v)
+        elif op in (sc.MAX_REPEAT, sc.MIN_REPEAT):
+            lo, hi, sub = av
+            if (lo, hi) == (0, 1):
+                used = d.fresh_bool("opt")
+                v = derive(sub, d, z3.And(guard, used))
+                vals.append(z3.If(used, v, z3.StringVal("")))
+            elif not _has_group(sub) and not _has_anchor(sub):
+                s = d.fresh_str("rep")
+                d.cons.append(z3.Implies(guard, z3.InRe(s, translate(one))))
+                vals.append(s)
+            else:
+                raise NotImplementedError("capture group inside an unbounded repeat")
+        elif op == sc.BRANCH:
+            alts = av[1]
+            choice = z3.Int(d.ctx.fresh_name("rx.alt"))
+            d.cons.append(z3.Implies(guard, z3.And(choice >= 0, choice < len(alts))))
+            v = z3.StringVal("")
+            for i in range(len(alts) - 1, -1, -1):
+                vi = derive(alts[i], d, z3.And(guard, choice == i))
+                v = z3.If(choice == i, vi, v)
+            vals.append(v)
+        elif op == sc.AT:
+            if av == sc.AT_END_STRING:
+                d.end_anchor.append(guard)
+                vals.append(z3.StringVal(""))
+            else:
+                raise NotImplementedError("anchor %r" % (av,))
+        else:
+            s = d.fresh_str("c")
+            d.cons.append(z3.Implies(guard, z3.InRe(s, translate(one))))
+            vals.append(s)
+    if not vals:
+        return z3.StringVal("")
+    return vals[0] if len(vals) == 1 else z3.Concat(*vals)
+
+
+class MatchModel(object):
+    pass
+
+
+def structural_match(interp, pattern, source, pos, node):
+    """pattern.match(source, pos): an over-approximation of the engine -- SOME derivation of the pattern covers
+    source[pos:pos+len]; which one (greedy/lazy priorities) is not modelled, so what is proved holds for every
+    derivation.  That a match exists at all is the separate totality lemma (C18.pattern-matches-at-every-offset)."""
+    from .values import Model, Opt, Unsupported
+    ctx = interp.ctx
+    if ctx.pure:
+        from .values import NotPure
+        raise NotPure()
+    src = z3.StringVal(source) if isinstance(source, str) else source
+    p = z3.IntVal(pos) if isinstance(pos, int) else pos
+    d = Derivation(ctx)
+    try:
+        whole = derive(sp.parse(pattern), d, z3.BoolVal(True))
+    except NotImplementedError as e:
+        raise Unsupported("regex construct outside the structural contract: %s" % e, node)
+    ctx.assumed.add("A2:re: pattern.match(s, pos) returns a match whose groups form a derivation of the pattern over s[pos:end] "
+                    "(structural contract derived from the pattern text; priorities not modelled)")
+    n = z3.Length(whole)
+    ctx.assume(z3.And(*d.cons), definitional=True)
+    ctx.assume(z3.And(p >= 0, p + n <= z3.Length(src), z3.SubString(src, p, n) == whole), definitional=True)
+    for g in d.end_anchor:
+        ctx.assume(z3.Implies(g, p + n == z3.Length(src)), definitional=True)
+    ctx.ghost.setdefault("rx.matches", []).append({"whole": whole, "pos": p, "n": n, "source": src})
+
+    class _Match(Model):
+        clsname = "re.Match"
+
+        def call_method(self_m, interp2, name, args, kwargs, node2):
+            if name == "group":
+                i = args[0] if args else 0
+                if i == 0:
+                    return whole
+                if i not in d.groups:
+                    raise Unsupported("group %r of the pattern" % (i,), node2)
+                present, v = d.groups[i]
+                if z3.is_true(z3.simplify(present)):
+                    return v
+                return Opt(z3.Not(present), v, kind="str")
+            if name == "start" and not args:
+                return p
+            if name == "end" and not args:
+                return p + n
+            if name == "__bool__":
+                return True
+            raise Unsupported("match.%s" % name, node2)
+    return _Match()
